@@ -7,7 +7,7 @@ props = [json.loads(l)["id"] for l in open(os.path.join(V, "properties.jsonl"))]
 TECH = "bounded symbolic execution of the go/ssa of the real functions -> SMT-LIB2 (z3 / cvc5 / cvc5 int-blasting portfolio), native replay of every counterexample"
 
 TECH_SCHED = TECH + "; for the concurrency harnesses the goroutine interleaving is part of the symbolic executor's decision vector (delay-bounded exploration at synchronisation operations) with a happens-before data-race detector, counterexample schedules steered natively through tagged events and confirmed with go test -race"
-SCHED = {"C06", "C13", "C14", "C16", "C17", "C20"}
+SCHED = {"C06", "C13", "C14", "C16", "C17", "C19", "C20"}
 
 # id -> (category, level text, level note, design ref)
 CLAIMS = {}
